@@ -422,3 +422,40 @@ Example stream_credit_follows_buffer_nonvacuous :
          [SData 16384; SData 9; SRelease; SDrain 8000; SRelease; SDrain 8393; SRelease]
   = (mksb 16393 0, [0; 0; 0; 0; 8000; 0; 8393]).
 Proof. vm_compute. reflexivity. Qed.
+
+(** 15. The connection-level receive window granted to a peer.  With the window
+    enlarged once to the configured [initial_connection_window] and received
+    bytes returned as soon as they reach half of it: under any interleaving of
+    enlargement points (every SETTINGS frame of a backend is one) and DATA
+    frames of a compliant peer, the peer's connection window never exceeds the
+    configured value (the bound on what one connection can have in flight
+    toward the proxy) and stays above half of it once enlarged: a peer is never
+    starved at connection level.
+    [connection_window_inflates_before_fix]: without the once-guard three
+    SETTINGS frames of a backend add three times the enlargement (black-box
+    `c14bb2 resettings`: 3932164 bytes credited for 6 bytes sent). *)
+Theorem connection_window_bounded_and_open :
+  forall icw evs,
+    DEFAULT_INITIAL_WINDOW_SIZE <= icw ->
+    cr_legal_run icw crecv_new evs ->
+    let s := fold_left (crecv_step true icw) evs crecv_new in
+    cr_window s <= icw /\ (cr_enlarged s = true -> icw / 2 < cr_window s).
+Proof.
+  intros icw evs Hi L s. apply cr_inv_window; [assumption|]. apply crecv_run_inv; try assumption.
+  unfold cr_inv, crecv_new, cr_window, DEFAULT_INITIAL_WINDOW_SIZE. cbn [cr_granted cr_consumed cr_acc cr_enlarged].
+  assert (Hh : 32767 <= icw / 2) by (apply Z.div_le_lower_bound; unfold DEFAULT_INITIAL_WINDOW_SIZE in Hi; lia).
+  split; lia.
+Qed.
+
+Example connection_window_inflates_before_fix :
+  let icw := 1048576 in
+  cr_window (fold_left (crecv_step false icw) [CEnlarge; CData 6; CEnlarge; CEnlarge; CEnlarge] crecv_new) = 3932164 + 65535 - 6 /\
+  cr_window (fold_left (crecv_step true icw) [CEnlarge; CData 6; CEnlarge; CEnlarge; CEnlarge] crecv_new) = icw - 6.
+Proof. vm_compute. split; reflexivity. Qed.
+
+Example connection_window_bounded_and_open_nonvacuous :
+  (* 65535-byte window (no enlargement): 600 padded frames of 266 wire bytes are all within the window, credit comes back every 124 frames *)
+  let s := fold_left (crecv_step true 65535) (CEnlarge :: repeat (CData 266) 600) crecv_new in
+  cr_consumed s = 159600 /\ cr_granted s = 65535 + 131936 /\ cr_acc s = 27664.
+Proof. vm_compute. repeat split; reflexivity. Qed.
+
